@@ -39,6 +39,7 @@ Proof.
   - destruct neg; eexists; split; reflexivity.
   - eexists; split; reflexivity.
   - eexists; split; reflexivity.
+  - eexists; split; reflexivity.
 Qed.
 
 Lemma rrank_spec lvl e : efrag lvl e = true -> ref_rank (hdef e) = Some (rrank e).
@@ -135,6 +136,8 @@ Lemma paren_ok_group x : paren_ok (EGroup x) = true -> paren_ok x = true.
 Proof. cbn [paren_ok]. intros H. apply andb_true_iff in H. apply H. Qed.
 Lemma paren_ok_nested lbl b : paren_ok (ENested lbl b) = true -> paren_ok b = true.
 Proof. cbn [paren_ok]. intros H. apply andb_true_iff in H. apply H. Qed.
+Lemma paren_ok_reapply x : paren_ok (EReapply x) = true -> paren_ok x = true.
+Proof. cbn [paren_ok]. intros H. apply andb_true_iff in H. apply H. Qed.
 Lemma paren_ok_binary e t l r : as_binary e = Some (t, l, r) -> paren_ok e = true ->
   paren_ok l = true /\ paren_ok r = true.
 Proof.
@@ -174,7 +177,7 @@ Proof.
   { intros y Hy. apply IHn. lia. }
   clear IHn Hn. intros F P q rest T R off Hfit Hstop HC.
   pose proof (rrank_spec lvl e F) as Hrk.
-  destruct (shape_of lvl e F) as [El Hi Hr _|o x -> Ho|o x -> Ho|x ->|lbl b ->|l r ->|t l r Hb].
+  destruct (shape_of lvl e F) as [El Hi Hr _|o x -> Ho|o x -> Ho|x ->|lbl b ->|x ->|l r ->|t l r Hb].
   - (* atom *)
     rewrite Hi. cbn [app]. apply C_val. rewrite Hr in HC. exact HC.
   - (* prefix operator: the operand is built under the operator's own rank *)
@@ -220,6 +223,20 @@ Proof.
     + intros _. eapply inside_INF; [apply (rrank_spec lvl b F)|apply (rrank_lt_INF lvl b F)].
     + exact I.
     + apply C_close.
+  - (* re-apply: a prefix operator *)
+    pose proof F as Fe. cbn [efrag] in F. apply andb_true_iff in F. destruct F as [_ F].
+    pose proof (paren_ok_reapply _ P) as Px. apply paren_ok_children in P.
+    cbn [ok_children] in P. unfold ok_prefix in P.
+    rewrite (prio_ltb lvl x _ F Fe), (prio_eqb lvl x _ F Fe) in P.
+    cbn [eitems rtree_of_expr] in *. cbn [app].
+    eapply C_pre; [exact Hrk| |exact HC].
+    apply (IH x); [cbn [size]; lia|exact F|exact Px| | |].
+    + intros Hlo. rewrite (left_open_not_prefix x Hlo), andb_false_r, orb_false_r in P.
+      rewrite (inside_spec _ _ _ (rrank_spec lvl x F)), P. reflexivity.
+    + eapply stops_mono; [|exact Hstop]. apply orb_true_iff in P. destruct P as [P|P].
+      * apply N.ltb_lt in P. lia.
+      * apply andb_true_iff in P. destruct P as [P _]. apply N.eqb_eq in P. lia.
+    + apply stops_done. exact Hstop.
   - (* space list *)
     assert (Hb : as_binary (EList Space l r) = Some (None, l, r)) by reflexivity.
     destruct (efrag_binary _ _ _ _ _ F Hb) as [Fl Fr]. destruct (paren_ok_binary _ _ _ _ Hb P) as [Pl Pr].
